@@ -16,6 +16,8 @@
 
 #include <arpa/inet.h>
 #include <cinttypes>
+#include <csignal>
+#include <unistd.h>
 #include <cstdlib>
 #include <fstream>
 #include <iostream>
@@ -67,6 +69,27 @@ static void dump_stats() {
 }
 static void sample(const std::string &s) {
   if (G.samples.size() < 8) G.samples.push_back(s);
+}
+
+// The tape being evaluated, for the death callback: a sanitizer report or a failed assert() ends the process without
+// unwinding, so the case would be lost (and no shrinking happens: such a tape is saved as generated).
+static const uint8_t *g_cur = nullptr;
+static size_t g_cur_n = 0;
+extern "C" void __sanitizer_set_death_callback(void (*)(void));
+static void save_current_case() {
+  const char *failpath = getenv("VT_FAILFILE");
+  if (failpath && g_cur) {
+    FILE *f = fopen(failpath, "wb");
+    if (f) {
+      fwrite(g_cur, 1, g_cur_n, f);
+      fclose(f);
+    }
+  }
+  dump_stats();
+}
+static void on_abort(int) {
+  save_current_case();
+  _exit(98);
 }
 
 struct Verdict {
@@ -304,8 +327,7 @@ static Verdict prop_collect(const uint8_t *data, size_t n) {
       }
     }
     uint32_t crc = 0;
-    vg_encode(e, &crc);
-    uint32_t nb = vg_enc_nblock(e);
+    uint32_t nb = vg_enc_finish_rle(e, &crc);   // the full encode() (sorting, coding) is exercised by `roundtrip`
     const uint8_t *blk = vg_enc_block(e);
     if (took != best)
       V.fail("block " + std::to_string(nblocks) + " consumed " + std::to_string(took) + " input bytes, greedy model " +
@@ -316,7 +338,7 @@ static Verdict prop_collect(const uint8_t *data, size_t n) {
     else {
       bzkit::Crc c;
       for (size_t i = 0; i < best; i++) c.add(in[pos + i]);
-      if (c.fin() != crc) V.fail("block CRC differs from the CRC of the consumed input");
+      if (c.fin() != (crc ^ 0xFFFFFFFFu)) V.fail("block CRC differs from the CRC of the consumed input");  // encode() returns the raw register
     }
     if (want.size() == cap) capacity = true;
     vg_enc_free(e);
@@ -627,9 +649,47 @@ static Verdict prop_decode_defect(const uint8_t *data, size_t n) {
 }
 // raw bytes (fuzzer route): the tape is the file, preceded by a 4-byte schedule
 static Verdict prop_decode_raw(const uint8_t *data, size_t n) {
-  size_t cut = n > 4 ? 4 : 0;
+  size_t cut = n > 6 ? 6 : 0;
   Tape ts(data, cut);
-  std::string file((const char *)data + cut, n - cut);
+  unsigned mode = cut ? data[4] % 4 : 0;
+  std::string file;
+  const uint8_t *rest = data + cut;
+  size_t rn = n - cut;
+  if (mode == 0) {
+    file.assign((const char *)rest, rn);                       // completely raw
+  } else if (mode == 1) {
+    file = "BZh";
+    file.push_back((char)('1' + (cut ? data[5] % 9 : 0)));     // valid stream header, then raw
+    file.append((const char *)rest, rn);
+  } else if (mode == 2) {
+    file = "BZh";
+    file.push_back((char)('1' + (cut ? data[5] % 9 : 0)));
+    static const char magic[6] = {0x31, 0x41, 0x59, 0x26, 0x53, 0x59};
+    file.append(magic, 6);                                      // ... and a block header
+    file.append((const char *)rest, rn);
+  } else {
+    // a valid generated file damaged by byte-level edits taken from the tape
+    size_t gcut = rn > 12 ? 12 : rn / 2;
+    bzkit::gen::GenOptions o;
+    o.max_block = 600;
+    bzkit::gen::GenResult g = bzkit::gen::generate(rest + gcut, rn - gcut, o);
+    file = g.bytes;
+    Tape tm(rest, gcut);
+    unsigned nm = 1 + tm.pick(3);
+    for (unsigned i = 0; i < nm && !file.empty(); i++) {
+      unsigned how = tm.pick(4);
+      size_t at = tm.pick((uint32_t)file.size());
+      if (how == 0)
+        file[at] = (char)(file[at] ^ (1 << tm.pick(8)));
+      else if (how == 1)
+        file[at] = (char)tm.byte();
+      else if (how == 2)
+        file.resize(at);
+      else
+        file.insert(at, 1, (char)tm.byte());
+    }
+  }
+  G.label("raw-mode-" + std::to_string(mode));
   return check_decode(file, ts, data, n, "raw", nullptr);
 }
 
@@ -692,7 +752,7 @@ static Verdict prop_roundtrip(const uint8_t *data, size_t n) {
     std::vector<uint32_t> buf((sz + 3) / 4 + 2);
     vg_transmit(e, buf.data());
     file.append((const char *)buf.data(), sz);
-    comb = ((comb << 1) | (comb >> 31)) ^ crc;
+    comb = ((comb << 1) | (comb >> 31)) ^ (crc ^ 0xFFFFFFFFu);  // encode() returns the raw CRC register
     vg_enc_free(e);
     pos += took;
     nblocks++;
@@ -850,11 +910,16 @@ int main(int argc, char **argv) {
     }
     const char *failpath = getenv("VT_FAILFILE");
     std::string why;
+    __sanitizer_set_death_callback(save_current_case);
+    signal(SIGABRT, on_abort);
     bool ok = rc::check(P->name, [&]() {
       // sizes are scaled per property; rapidcheck's size parameter (0..max_size) picks the length class
       const auto tape = *rc::gen::scale(P->max_size / 100.0, rc::gen::container<std::vector<uint8_t>>(rc::gen::resize(100, rc::gen::arbitrary<uint8_t>())));
       G.evaluations++;
+      g_cur = tape.data();
+      g_cur_n = tape.size();
       Verdict v = P->fn(tape.data(), tape.size());
+      g_cur = nullptr;
       if (!v.ok) {
         why = v.why;
         if (failpath) {
